@@ -1,4 +1,4 @@
-CONSTANTS MaxSoup = 2  MaxMut = 1  Chains = {8, 32, 200, 1000, 4000}
+CONSTANTS MaxSoup = 2  MaxMut = 1  Chains = {8, 32, 200, 1000, 4000}  GenSizes = {2, 8, 20, 32, 64, 4000}
 INIT Init
 NEXT Next
 VIEW View
